@@ -1,5 +1,6 @@
 //! Supervisor harness: C04, C06, C07, C09, C10 on the real `start_job` task.
 
+mod model;
 mod mon;
 mod run;
 mod scen;
@@ -42,7 +43,9 @@ impl Harness for Sup {
 			mon::Set::C09 => {
 				v.extend(scen::core_family(tier));
 				v.extend(scen::hook_family(tier));
-				v.extend(scen::fault_family(tier));
+				v.extend(scen::fault_family(tier).into_iter().filter(|(s, _)| !matches!(s.op_fault, Some((scen::Fault::Wait, _)))));
+				v.extend(scen::order_family(tier).into_iter().filter(|(s, b)| s.script.len() <= 4 && b.len() > 1));
+				v.extend(scen::waiter_family(tier).into_iter().filter(|(s, _)| s.drop_handle));
 			}
 			mon::Set::C10 => v.extend(scen::order_family(tier)),
 		}
@@ -87,6 +90,42 @@ fn main() {
 		"bounds: see coverage.passes (script length, deviation bound k per base policy)".to_string(),
 	];
 	let rule = "every ENV order (operation sends, child exit, ticks, handle drop) of every scenario, times every SELECT/SCHED/PREEMPT deviation set within the pass bound; an execution is non-trivial if it spawned at least one child; distinct = distinct observation logs";
-	let code = orch::dex_main(&h, &args, &[prop], assumptions, rule);
+	let tier = args.tier;
+	let is_c09 = prop == "C09";
+	let post: Option<orch::Post<'_>> = if is_c09 && args.worker.is_none() && args.replay.is_none() {
+		Some(Box::new(move |cov, viols| {
+			// the model itself, exhaustively: every reachable state for a bounded number of sends
+			let (sends, alpha): (usize, Vec<scen::Op>) = match tier {
+				orch::Tier::Quick => (3, scen::CORE.to_vec()),
+				orch::Tier::Thorough => (4, scen::CORE.to_vec()),
+			};
+			let mut total_states = 0usize;
+			let mut depth = 0usize;
+			for grace in [0u64, 2] {
+				let r = model::check_model(sends, alpha.clone(), grace, 16);
+				total_states += r.states;
+				depth = depth.max(r.max_depth);
+				if let Some(v) = r.violation {
+					viols.push(orch::ViolationRec {
+						property: "C09".into(),
+						key: "C09/model-invariant-violated".into(),
+						detail: v,
+						harness: "h-supervisor/stateright".into(),
+						scenario: serde_json::json!({"model": "JobModel", "sends": sends, "grace": grace}),
+						bounds: None,
+						choices: vec![],
+						log: vec![],
+						count: 1,
+					});
+				}
+			}
+			cov.insert("jobmodel_stateright_states".into(), serde_json::json!(total_states));
+			cov.insert("jobmodel_stateright_max_depth".into(), serde_json::json!(depth));
+			cov.insert("jobmodel_bound".into(), serde_json::json!(format!("<= {sends} sends over the {}-operation alphabet, grace in {{0,2}}, <= 3 child exits", alpha.len())));
+		}))
+	} else {
+		None
+	};
+	let code = orch::dex_main_with(&h, &args, &[prop], assumptions, rule, post);
 	std::process::exit(code);
 }
